@@ -298,7 +298,7 @@ func tsFieldOfKind(rng *Rng, arch byte, ts uint32, kind int) wField {
 		return u32(basetype.Uint32, 0xFFFFFFFF)
 	case 2: // below DateTimeMin (a system time)
 		count("ts:below-min")
-		return u32(basetype.Uint32, []uint32{uint32(rng.Intn(0x10000000)), 0x0FFFFFFF, 0, uint32(rng.Intn(32)), ts & 0x0FFFFFFF}[rng.Intn(5)])
+		return u32(basetype.Uint32, []uint32{uint32(rng.Intn(0x10000000)), 0x0FFFFFFF, 0, uint32(rng.Intn(32)), ts & 0x0FFFFFFF, 0x0FFFFFFF - uint32(rng.Intn(31))}[rng.Intn(6)])
 	case 3: // one byte
 		count("ts:uint8")
 		return wField{num: 253, bt: int(basetype.Uint8), tag: int(proto.TypeUint8), data: []byte{byte(rng.Intn(256))}}
